@@ -266,6 +266,15 @@ class FitRun(Scenario):
             return loss_fn(data, pred)
 
         ctx.true("reported parameters carry the names of p0", set(fitres.best_pars) == set(p0), info=str(list(fitres.best_pars)))
+        # the model handed back with the fit holds the reported values (not those of whatever candidate was evaluated last)
+        with ctx.impl("the fitted model"):
+            fm_p = fitres.model.get_parameter_values()
+            fm_v = {k_: v_.initial_value for k_, v_ in fitres.model.get_raw_variables().items()}
+        for k_, v_ in dict(fitres.best_pars).items():
+            if k_ in fm_p:
+                ctx.eq(f"the returned model holds the reported value of {k_}", fm_p[k_], v_)
+            elif k_ in fm_v:
+                ctx.eq(f"the returned model holds the reported value of {k_}", fm_v[k_], v_)
         with ctx.impl("oracle loss"):
             recomputed = oracle_loss(dict(fitres.best_pars))
             at_start = oracle_loss(dict(p0))
